@@ -122,7 +122,16 @@ impl Scenario for Pair {
             g.max_key_len = rng.urange(3, 5);
             g.ts_values = rng.range(4, 40);
             g.marker_pct = *rng.pick(&[2, 5, 10]);
-            (rng.urange(30, 250), rng.urange(if shape == 5 { 0 } else { 30 }, if shape == 5 { 3 } else { 250 }))
+            // a fifth of the large runs: several hundred entries on one side (more than any plausible
+            // per-message or per-part limit), against a few, none, or as many on the other
+            if rng.chance(1, 5) {
+                g.max_key_len = rng.urange(4, 5);
+                let big = rng.urange(260, 700);
+                let other = *rng.pick(&[0usize, 1, 2, 40, 300]);
+                if rng.chance(1, 2) { (big, other) } else { (other, big) }
+            } else {
+                (rng.urange(30, 250), rng.urange(if shape == 5 { 0 } else { 30 }, if shape == 5 { 3 } else { 250 }))
+            }
         } else {
             (rng.urange(0, max), rng.urange(0, max))
         };
@@ -293,7 +302,7 @@ impl Scenario for Pair {
 
     fn rule(&self) -> String {
         if self.large {
-            return "A run fills two replicas with 30-250 entries each (1-4 authors, keys of one fixed length of 3-5 bytes from the biased alphabet so that entries do not prune each other, plus a few shorter keys at the oldest timestamp; 4-40 timestamps, few deletion markers; shapes: random, one nearly empty, identical, superset, half shared), draws split_factor 2-8, max_set_size 1-8, the initiator and the backends, then runs one complete session and an immediately following one: several levels of range splitting under every configuration. Non-trivial: as for the small batch.".into();
+            return "A run fills two replicas with 30-250 entries each, in a fifth of the runs 260-700 on one side (1-4 authors, keys of one fixed length of 3-5 bytes from the biased alphabet so that entries do not prune each other, plus a few shorter keys at the oldest timestamp; 4-40 timestamps, few deletion markers; shapes: random, one nearly empty, identical, superset, half shared), draws split_factor 2-8, max_set_size 1-8, the initiator and the backends, then runs one complete session and an immediately following one: several levels of range splitting under every configuration. Non-trivial: as for the small batch.".into();
         }
         "A run fills two replicas (0-24 entries each from the biased alphabet; shapes: random, one empty, identical, superset, half shared) through the remote-insert path, draws split_factor 2-8, max_set_size 1-8, the initiator, backends, and age-commit placements inside message processing, then runs one complete session and an immediately following one. Non-trivial: an age-commit fired inside an operation, or a rare branch (wrap-around split, recursion, pruning during the session) was hit.".into()
     }
@@ -476,7 +485,7 @@ async fn session(init: &mut Side, acc: &mut Side, bound: usize, ages: &[(usize, 
         }
         let bytes = bytes_of(&msg);
         if bytes.len() > 1 << 20 {
-            // at most 500 entries of ~250 bytes are in play (125 KB if all of them travel at once): a megabyte message means the exchange is exploding
+            // at most 1000 entries of ~250 bytes are in play (250 KB if all of them travel at once): a megabyte message means the exchange is exploding
             return Err(Violation::new("terminate/blowup", format!("message {n} of the session is {} bytes, several times everything both replicas hold", bytes.len())));
         }
         let hop: ProtocolMessage = postcard::from_bytes(&bytes).map_err(|e| harness(format!("hop decode: {e}")))?;
